@@ -29,7 +29,8 @@ fn parse_output(text: &str, dot: bool, undirected: bool) -> Result<Vec<(String, 
             edges.push((a.to_string(), b.to_string()));
         }
     } else {
-        for l in text.lines() {
+        // (records end with \n; a \r is part of the vertex name it sticks to)
+        for l in text.split('\n').filter(|l| !l.is_empty()) {
             let (a, b) = l.split_once(',').ok_or_else(|| format!("bad edge line {:?}", l))?;
             if b.contains(',') {
                 return Err(format!("bad edge line {:?}", l));
@@ -87,6 +88,10 @@ fn run_req(ctx: &Ctx, r: &Req, tag: &str) -> (cli::RunOut, String) {
         }
         args.push("-o".into());
         args.push(f.display().to_string());
+    } else if (r.v.unwrap_or(0) + r.e.unwrap_or(0)) % 3 == 1 {
+        // -o may also name the process's own standard output
+        args.push("-o".into());
+        args.push("/dev/stdout".into());
     }
     let out = cli::run(&ctx.bin("random_graph_gen"), &args, None, Some(&dir), None, Duration::from_secs(60));
     let text = if r.to_file { std::fs::read_to_string(&f).unwrap_or_default() } else { out.stdout_str() };
@@ -246,7 +251,12 @@ fn convert_case(ctx: &Ctx, st: &mut Stats, edges: &[(String, String)], undirecte
     st.evals += 1;
     let dir = ctx.fresh_dir(&format!("c18c-{}", tag));
     let _ = std::fs::create_dir_all(&dir);
-    let csv: String = edges.iter().map(|(a, b)| format!("{},{}\n", a, b)).collect();
+    // (a third of the inputs with Windows line endings)
+    let eol = if (edges.len() + dot as usize + colors.unwrap_or(0)) % 3 == 1 { "\r\n" } else { "\n" };
+    let csv: String = edges.iter().map(|(a, b)| format!("{},{}{}", a, b, eol)).collect();
+    if eol.len() == 2 && !edges.is_empty() {
+        st.bump("convert_inputs_with_crlf");
+    }
     // the file to convert is a regular file, a named pipe or /dev/stdin (chosen by the content)
     let mode = [0u8, 0, 3, 4][(csv.len() + undirected as usize + 2 * dot as usize) % 4];
     let plan = super::common::plan_input(mode, &dir, "in.csv", csv.as_bytes());
